@@ -17,9 +17,16 @@ use std::os::unix::ffi::OsStringExt;
 use std::os::unix::process::CommandExt;
 use std::process::{Command, Stdio};
 
-pub const REALPROC: &str = "/verif/target/realproc/release/bpaf_realproc";
-pub const REALPROC_DULL: &str = "/verif/target/realproc-dull/release/bpaf_realproc";
-const MARKER_DIR: &str = "/verif/target/markers";
+pub fn realproc(dull: bool) -> String {
+    format!(
+        "{}/target/realproc{}/release/bpaf_realproc",
+        crate::root(),
+        if dull { "-dull" } else { "" }
+    )
+}
+fn marker_dir() -> String {
+    format!("{}/target/markers", crate::root())
+}
 
 extern "C" {
     fn close(fd: i32) -> i32;
@@ -385,8 +392,8 @@ pub fn spawn_real(
     err_fault: &StreamFault,
     tag: &str,
 ) -> Result<RealObs, String> {
-    let _ = std::fs::create_dir_all(MARKER_DIR);
-    let marker = format!("{}/{}-{}", MARKER_DIR, std::process::id(), tag);
+    let _ = std::fs::create_dir_all(marker_dir());
+    let marker = format!("{}/{}-{}", marker_dir(), std::process::id(), tag);
     let _ = std::fs::remove_file(&marker);
     let (so, close_out) = stdio_for(out_fault)?;
     let (se, close_err) = stdio_for(err_fault)?;
@@ -591,12 +598,9 @@ pub fn run_case(case: &Case, stats: &mut Stats) -> RunReport {
         }
         // ---- tier B: a real child process of the unhooked build
         if real && !argv.is_empty() {
-            let exe = if argv.iter().map(|a| a.len()).sum::<usize>() % 2 == 0 {
-                REALPROC
-            } else {
-                REALPROC_DULL
-            };
-            match spawn_real(exe, opts, argv, out_fault, err_fault, &format!("{}-{}", case.run, ix)) {
+            let dull = argv.iter().map(|a| a.len()).sum::<usize>() % 2 == 1;
+            let exe = realproc(dull);
+            match spawn_real(&exe, opts, argv, out_fault, err_fault, &format!("{}-{}", case.run, ix)) {
                 Err(why) => {
                     stats.bump("real.harness_error");
                     h.write_str("real-harness-error");
@@ -606,10 +610,10 @@ pub fn run_case(case: &Case, stats: &mut Stats) -> RunReport {
                 }
                 Ok(ro) => {
                     stats.bump("real.spawned");
-                    stats.bump(if exe == REALPROC {
-                        "real.variant_plain"
-                    } else {
+                    stats.bump(if dull {
                         "real.variant_dull_color"
+                    } else {
+                        "real.variant_plain"
                     });
                     // whether a fault fired in the child is visible from outside only through
                     // its effects; a configured fault counts as potentially fired
